@@ -49,6 +49,13 @@ Theorem C08_seeded_repeatable : forall s t m g1 g2,
               /\ samples (mlp_ops (Some s) t m n0 ps) (init g1) = samples (mlp_ops (Some s) t m n0 ps) (init g2)).
 Proof. exact seeded_repeatable. Qed.
 
+(* the same without fixing the schedule: D, an arbitrary function of the history of events (with their
+   positions), chooses every instruction; if the first one is the seed the whole run is independent
+   of the ambient generator state.  (All three engine models start with OSeed.) *)
+Theorem C08_seeded_repeatable_adaptive : forall D fuel s g1 g2,
+  D [] = Some (OSeed s) -> arun fuel D (init g1) [] = arun fuel D (init g2) [].
+Proof. exact seeded_repeatable_adaptive. Qed.
+
 (* worker pool, jump-time mode (no pre-drawn rows), workers seeded with pairwise different values:
    all samples of all chunks, for every assignment of chunks to (existing) workers, use disjoint positions *)
 Theorem C08_pool_jump_mode_disjoint : forall g0 nb d n wseeds chunks,
@@ -97,6 +104,7 @@ Print Assumptions C08_single_process_disjoint.
 Print Assumptions C08_samples_pairwise_disjoint.
 Print Assumptions C08_rows_exactly_once.
 Print Assumptions C08_seeded_repeatable.
+Print Assumptions C08_seeded_repeatable_adaptive.
 Print Assumptions C08_pool_jump_mode_disjoint.
 Print Assumptions C08_workers_share_rows_refuted.
 Print Assumptions C08_preseed_draws_refuted.
